@@ -426,7 +426,7 @@ impl TopicCache {
 // -----------------------------------------------------------------------
 
 // Verification hook: read-only view of the reliable hand-over markers and of the cache size.
-#[cfg(rustdds_verif)]
+#[cfg(all(rustdds_verif, any(not(rustdds_verif_only), rustdds_verif_c01, rustdds_verif_c03)))]
 impl TopicCache {
   pub(crate) fn verif_reliable_before(&self, writer: GUID) -> Option<SequenceNumber> {
     self.received_reliably_before.get(&writer).copied()
